@@ -11,46 +11,60 @@ EXTENDS Integers, Sequences, FiniteSets, TLC, Json
 
 CONSTANTS Buckets,      \* {"m", "d"}: an in-memory and an on-disk bucket
           K,            \* physical clock readings 0..K
-          MaxSteps, SeedOnOpen
+          MaxSteps, SeedOnOpen,
+          MetaKeepsMark \* TRUE (design): a write with a caller-chosen CAS never lowers the bucket's persisted mark
 
 VARIABLES highest,      \* the clock's memory (highest value issued or seen)
           phys,         \* current physical clock reading
           isopen,       \* [Buckets -> BOOLEAN]
           persisted,    \* [Buckets -> last CAS committed]  (lost for "m" on restart)
-          issuedEpoch,  \* values issued since the process started
-          issuedBy,     \* [Buckets -> values ever issued through this bucket (survives restarts for "d")]
+          issuedEpoch,  \* sequence of the values issued since the process started
+          issuedBy,     \* [Buckets -> sequence of the values ever issued through this bucket (survives restarts for "d")]
+          cmark,        \* [Buckets -> mark of a second collection, written only with caller-chosen CAS values]
           steps, hist
-vars == <<highest, phys, isopen, persisted, issuedEpoch, issuedBy, steps, hist>>
+vars == <<highest, phys, isopen, persisted, issuedEpoch, issuedBy, cmark, steps, hist>>
 
 Init == /\ highest = 0 /\ phys = 0
         /\ isopen = [b \in Buckets |-> TRUE]
         /\ persisted = [b \in Buckets |-> 0]
-        /\ issuedEpoch = {} /\ issuedBy = [b \in Buckets |-> {}]
+        /\ issuedEpoch = <<>> /\ issuedBy = [b \in Buckets |-> <<>>]
+        /\ cmark = [b \in Buckets |-> 0]
         /\ steps = 0 /\ hist = <<>>
 
 Clock(v) == /\ phys' = v
-            /\ UNCHANGED <<highest, isopen, persisted, issuedEpoch, issuedBy>>
+            /\ UNCHANGED <<highest, isopen, persisted, issuedEpoch, issuedBy, cmark>>
 Now(b) ==
     /\ isopen[b]
     /\ LET n == IF highest >= phys THEN highest + 1 ELSE phys IN
        /\ highest' = n
        /\ persisted' = [persisted EXCEPT ![b] = n]
-       /\ issuedEpoch' = issuedEpoch \cup {n}
-       /\ issuedBy' = [issuedBy EXCEPT ![b] = @ \cup {n}]
-    /\ UNCHANGED <<phys, isopen>>
+       /\ issuedEpoch' = Append(issuedEpoch, n)
+       /\ issuedBy' = [issuedBy EXCEPT ![b] = Append(@, n)]
+    /\ UNCHANGED <<phys, isopen, cmark>>
+(* SetWithMeta / DeleteWithMeta into another collection of the bucket with a caller-chosen CAS just below (lo) or
+   above the bucket's mark: the collection's mark follows it, the bucket's mark never falls, the clock is not told *)
+Meta(b, lo) ==
+    /\ isopen[b]
+    /\ LET v == IF lo THEN persisted[b] - 1 ELSE persisted[b] + 2 IN
+       /\ v > 0
+       /\ IF v <= cmark[b] THEN UNCHANGED <<persisted, cmark>>
+          ELSE /\ cmark' = [cmark EXCEPT ![b] = v]
+               /\ persisted' = [persisted EXCEPT ![b] = IF MetaKeepsMark /\ @ > v THEN @ ELSE v]
+    /\ UNCHANGED <<highest, phys, isopen, issuedEpoch, issuedBy>>
 (* the process ends (all handles closed or the process killed); a new process starts with an empty clock *)
 Restart ==
     /\ highest' = 0
     /\ isopen' = [b \in Buckets |-> FALSE]
     /\ persisted' = [persisted EXCEPT !["m"] = 0]
-    /\ issuedEpoch' = {}
-    /\ issuedBy' = [issuedBy EXCEPT !["m"] = {}]
+    /\ issuedEpoch' = <<>>
+    /\ issuedBy' = [issuedBy EXCEPT !["m"] = <<>>]
+    /\ cmark' = [cmark EXCEPT !["m"] = 0]
     /\ UNCHANGED phys
 Open(b) ==
     /\ ~isopen[b]
     /\ isopen' = [isopen EXCEPT ![b] = TRUE]
     /\ highest' = IF SeedOnOpen /\ persisted[b] > highest THEN persisted[b] ELSE highest
-    /\ UNCHANGED <<phys, persisted, issuedEpoch, issuedBy>>
+    /\ UNCHANGED <<phys, persisted, issuedEpoch, issuedBy, cmark>>
 
 Act(kind, b, v) == [kind |-> kind, b |-> b, v |-> v]
 Next == /\ steps < MaxSteps
@@ -59,22 +73,27 @@ Next == /\ steps < MaxSteps
            \/ \E b \in Buckets : Now(b) /\ hist' = Append(hist, Act("now", b, 0))
            \/ Restart /\ hist' = Append(hist, Act("restart", "-", 0))
            \/ \E b \in Buckets : Open(b) /\ hist' = Append(hist, Act("open", b, 0))
+           \/ \E b \in Buckets, lo \in BOOLEAN : Meta(b, lo) /\ hist' = Append(hist, Act("meta", b, IF lo THEN 1 ELSE 0))
 Spec == Init /\ [][Next]_vars
-View == <<highest, phys, isopen, persisted, issuedEpoch, issuedBy, steps>>
+View == <<highest, phys, isopen, persisted, issuedEpoch, issuedBy, cmark, steps>>
 
 (* C04 *)
-MaxOf(s) == IF s = {} THEN 0 ELSE CHOOSE m \in s : \A x \in s : x <= m
-StrictlyIncreasing == [][\A b \in Buckets : (issuedEpoch' # issuedEpoch /\ issuedEpoch' # {}) =>
-                            (\A n \in issuedEpoch' \ issuedEpoch : n > MaxOf(issuedEpoch))]_vars
-AboveBeforeRestart == [][\A b \in Buckets : \A n \in issuedBy'[b] \ issuedBy[b] : n > MaxOf(issuedBy[b])]_vars
-PersistedCoversIssued == \A b \in Buckets : isopen[b] => persisted[b] = MaxOf(issuedBy[b])
+MaxOf(s) == IF Len(s) = 0 THEN 0 ELSE CHOOSE m \in {s[i] : i \in 1..Len(s)} : \A i \in 1..Len(s) : s[i] <= m
+Increasing(s) == \A i, j \in 1..Len(s) : i < j => s[i] < s[j]
+(* sequences, not sets: handing out the same value twice must show *)
+StrictlyIncreasing == Increasing(issuedEpoch)
+AboveBeforeRestart == \A b \in Buckets : Increasing(issuedBy[b])
+PersistedCoversIssued == \A b \in Buckets : isopen[b] => persisted[b] >= MaxOf(issuedBy[b])
 
 (* behaviour generation *)
 GenNext ==
     /\ steps < MaxSteps
     /\ steps' = steps + 1
-    /\ LET r == RandomElement(1..10) IN
-       IF r <= 2 THEN \E v \in {RandomElement(0..K)} : Clock(v) /\ hist' = Append(hist, Act("clock", "-", v))
+    /\ LET r == RandomElement(1..12) IN
+       IF r >= 11 /\ \E b \in Buckets : isopen[b] /\ persisted[b] > 1
+       THEN \E b \in {RandomElement({x \in Buckets : isopen[x] /\ persisted[x] > 1})}, lo \in {RandomElement(BOOLEAN)} :
+               Meta(b, lo) /\ hist' = Append(hist, Act("meta", b, IF lo THEN 1 ELSE 0))
+       ELSE IF r <= 2 THEN \E v \in {RandomElement(0..K)} : Clock(v) /\ hist' = Append(hist, Act("clock", "-", v))
        ELSE IF r <= 8 /\ \E b \in Buckets : isopen[b]
             THEN \E b \in {RandomElement({x \in Buckets : isopen[x]})} : Now(b) /\ hist' = Append(hist, Act("now", b, 0))
        ELSE IF r = 9 \/ \A b \in Buckets : isopen[b] THEN Restart /\ hist' = Append(hist, Act("restart", "-", 0))
